@@ -3,13 +3,14 @@
    against DirOps: every recorded public call must be the corresponding DirOps action (same
    resulting image length, destination position and destination calls), and property C09 is
    evaluated on the OBSERVED destination content after every call.                           *)
-EXTENDS DirOps, Integers, Json, IOUtils
+EXTENDS DirOps, Integers, Json, IOUtils, FiniteSets
 Rec == ndJsonDeserialize(IOEnv.TRACE)
 VARIABLES l, viol, drift, nchk
 tvars == <<vars, l, viol, drift, nchk>>
 E == Rec[l]
 Has(r, f) == f \in DOMAIN r
-Note(cond, seq, tag) == IF cond \/ Len(seq) >= 200 THEN seq ELSE Append(seq, <<l, tag>>)
+NTag(seq, tag) == Cardinality({k \in 1..Len(seq) : seq[k][2] = tag})
+Note(cond, seq, tag) == IF cond \/ NTag(seq, tag) >= 60 THEN seq ELSE Append(seq, <<l, tag>>)
 TInit == /\ l = 1 /\ viol = <<>> /\ drift = <<>> /\ nchk = 0
          /\ imgLen = 0 /\ flushed = 0 /\ idx = 0 /\ start = 0 /\ fileHi = 0 /\ fpos = 0
          /\ lastGrow = [off |-> 0, len |-> 0] /\ nops = 0
